@@ -568,7 +568,6 @@ func c14long(c *Ctx, sv svcSpec, n int) {
 	}
 }
 
-
 // c14history: Calc on a buffer, then (a) the same buffer memory overwritten in place with other bytes of the same
 // length, (b) a different buffer with other bytes: both results must be the checksum of the bytes given now. A
 // service that remembers its last input (by reference or by content) answers from its memo.
